@@ -1,8 +1,8 @@
 (* C18 — A local job runs once and ends in exactly one truthful final state.
    Model: Model/LocalJob.v (two-thread transition system; every list of events is an interleaving that respects
    the worker's program order).  [final c p l] is the state after the schedule [l] from a fresh job.
-   The model carries the code version in [ver c]: [code_now] is /repo as it is (after fix commits 5d55599b and
-   53f68db6), [code_3e543e6e] the code before them.  Theorems named ..._old_code are HISTORICAL: they describe the
+   The model carries the code version in [ver c]: [code_now] is /repo as it is (after fix commits 5d55599b,
+   53f68db6 and 92fc55a7), [code_3e543e6e] the code before them, [code_before_92fc55a7] the code before the last one.  Theorems named ..._old_code are HISTORICAL: they describe the
    behaviour before the repairs and are kept as witnesses of the two repaired defects.
    Only statements + [exact] + Print Assumptions live here. *)
 From PV Require Import Model.LocalJob Proofs.LocalJobP.
@@ -73,43 +73,85 @@ Print Assumptions C18_final_state_after_return.
 Example C18_final_state_after_return_sat : pc (final cfg_w prog_w [Act (AExec Sync [3] []); Wk; Act ACancel; Wk; Wk]) = PRet.
 Proof. vm_compute. reflexivity. Qed.
 
-Theorem C18_final_state_after_raise : forall c p l1 l2 ty m, pc (final c p l1) = PExc ty m ->
+Theorem C18_final_state_after_raise : forall c p l1 l2 ty m rr, pc (final c p l1) = PExc ty m rr ->
   let s := final c p (l1 ++ Wk :: l2) in
-  out p = ORaise ty m /\ status s = Error /\ msg s = MErr ty m /\ results s = None.
+  raised c p ty m rr /\ status s = Error /\ msg s = MErr ty m /\ results s = None.
 Proof. exact final_state_after_raise. Qed.
 Print Assumptions C18_final_state_after_raise.
 Example C18_final_state_after_raise_sat :
-  pc (final cfg_w (mkprog [] (ORaise 1 2) false 0 5 6 []) [Act (AExec Async [3] []); Wk; Wk]) = PExc 1 2.
+  pc (final cfg_w (mkprog [] (ORaise 1 2) false 0 5 6 []) [Act (AExec Async [3] []); Wk; Wk]) = PExc 1 2 false.
 Proof. vm_compute. reflexivity. Qed.
 
 (* a raising task always ends in ERROR with a message, whatever the exception carries (the model's message is a
    total function of the exception): from the point where the task is about to raise, its next step, any caller
    actions, then the wrapper's step — the handler has no other exit.  (The driver ranges over exception SHAPES.) *)
-Theorem C18_raising_task_ends_in_error : forall c p l1 l2 l3 ty m,
-  pc (final c p l1) = PTask [] false -> out p = ORaise ty m -> Forall is_act l2 ->
+Theorem C18_raising_task_ends_in_error : forall c p l1 l2 l3 ty m rr,
+  pc (final c p l1) = PTask [] false -> raised c p ty m rr -> Forall is_act l2 ->
   let s := final c p (l1 ++ Wk :: l2 ++ Wk :: l3) in
   status s = Error /\ msg s = MErr ty m /\ results s = None.
 Proof. exact raising_task_ends_in_error. Qed.
 Print Assumptions C18_raising_task_ends_in_error.
 Example C18_raising_task_ends_in_error_sat :
-  pc (final cfg_w (mkprog [] (ORaise 1 2) false 0 5 6 []) [Act (AExec Sync [3] []); Wk]) = PTask [] false.
-Proof. vm_compute. reflexivity. Qed.
+  pc (final cfg_w (mkprog [] (ORaise 1 2) false 0 5 6 []) [Act (AExec Sync [3] []); Wk]) = PTask [] false /\
+  raised cfg_w (mkprog [] (ORaise 1 2) false 0 5 6 []) 1 2 false /\ raised cfg_w prog_esc 0 4 true.
+Proof. vm_compute. split; [reflexivity|]. split; [left|right]; split; reflexivity. Qed.
 
 Theorem C18_cancel_flag_iff_requested : forall c p l, cancel (final c p l) = existsb is_cancel l.
 Proof. exact cancel_flag_iff_requested. Qed.
 Print Assumptions C18_cancel_flag_iff_requested.
 
-(* Full statement (FALSE of the current code): forall c p l, out p <> ORet -> status (final c p l) <> Success.
-   True when the task raises an Exception; false when it raises a BaseException that is not an Exception. *)
-Theorem C18_never_success_when_task_raised_partial : forall c p l ty m,
-  out p = ORaise ty m -> status (final c p l) <> Success.
-Proof. exact never_success_when_task_raised_partial. Qed.
-Print Assumptions C18_never_success_when_task_raised_partial.
+(* ---- a task that raised is never reported successful (current code, 92fc55a7): an Exception, a BaseException
+   that is not an Exception, an exception that cannot be printed — every schedule *)
+Theorem C18_never_success_when_task_raised : forall c p l, escapes_unhandled (ver c) = false ->
+  out p <> ORet -> status (final c p l) <> Success.
+Proof. exact never_success_when_task_raised. Qed.
+Print Assumptions C18_never_success_when_task_raised.
+Example C18_never_success_when_task_raised_sat : escapes_unhandled (ver cfg_w) = false /\ out prog_esc <> ORet.
+Proof. split; [reflexivity|discriminate]. Qed.
 
-Theorem C18_never_success_when_task_raised_refuted : exists c p l,
-  out p <> ORet /\ status (final c p l) = Success /\ results (final c p l) = None.
-Proof. exact never_success_when_task_raised_refuted. Qed.
-Print Assumptions C18_never_success_when_task_raised_refuted.
+(* what the wrapper does with a non-Exception: ERROR recorded first, then re-raised (execute_sync re-raises it to
+   its caller without calling get_results; an asynchronous worker ends with it) *)
+Theorem C18_base_exception_recorded_then_reraised : forall c p s ty m, pc s = PExc ty m true ->
+  let s' := fst (wk c p s) in
+  status s' = Error /\ msg s' = MErr ty m /\ pc s' = PDone /\ results s' = results s /\
+  (sync s = true -> sync_ret s' = Some GEscaped /\ snd (wk c p s) = OEscaped) /\
+  (sync s = false -> worker s' = WDead).
+Proof. exact base_exception_recorded_then_reraised. Qed.
+Print Assumptions C18_base_exception_recorded_then_reraised.
+
+Theorem C18_escapes_end_in_error_now :
+  let l := [Act (AExec Async [3] []); Wk; Wk; Wk; Act AStatus] in
+  (status (final cfg_w prog_esc l), msg (final cfg_w prog_esc l)) = (Error, MErr 0 4) /\
+  (status (final cfg_w prog_unp l), msg (final cfg_w prog_unp l)) = (Error, MErr 4 5) /\
+  trace cfg_w prog_esc [Act (AExec Sync [3] []); Wk; Wk; Wk; Act AStatus]
+    = [OExec XAccepted; OStarted; ORaised; OEscaped; OStatus (SOk Error 0 0 (MErr 0 4))].
+Proof. exact escapes_end_in_error_now. Qed.
+Print Assumptions C18_escapes_end_in_error_now.
+
+(* HISTORICAL (any code version): the statement always held for ordinary Exceptions ... *)
+Theorem C18_never_success_when_task_raised_exception_any_code : forall c p l ty m,
+  out p = ORaise ty m -> status (final c p l) <> Success.
+Proof. exact never_success_when_task_raised_exception_any_code. Qed.
+Print Assumptions C18_never_success_when_task_raised_exception_any_code.
+
+(* ... HISTORICAL (code before 92fc55a7): it was false for a BaseException that is not an Exception, *)
+Theorem C18_never_success_when_task_raised_refuted_old_code : exists p l,
+  out p <> ORet /\ status (final cfg_pre3 p l) = Success /\ results (final cfg_pre3 p l) = None.
+Proof. exact never_success_when_task_raised_refuted_old_code. Qed.
+Print Assumptions C18_never_success_when_task_raised_refuted_old_code.
+
+(* ... HISTORICAL: and for an exception whose str() raises, *)
+Theorem C18_unprintable_reported_success_refuted_old_code : exists l,
+  status (final cfg_pre3 prog_unp l) = Success /\ results (final cfg_pre3 prog_unp l) = None.
+Proof. exact unprintable_reported_success_refuted_old_code. Qed.
+Print Assumptions C18_unprintable_reported_success_refuted_old_code.
+
+(* ... HISTORICAL: and a synchronous job stayed RUNNING for ever while the exception came out of execute_sync *)
+Theorem C18_sync_escape_stays_running_old_code :
+  let s := final cfg_pre3 prog_esc [Act (AExec Sync [3] []); Wk; Wk; Wk; Wk] in
+  status s = Running /\ pc s = PDone /\ sync_ret s = Some GEscaped.
+Proof. exact sync_escape_stays_running_old_code. Qed.
+Print Assumptions C18_sync_escape_stays_running_old_code.
 
 (* ---- results ([C18_results_idempotent] covers every result shape: the returned value includes the entries) *)
 Theorem C18_no_results_while_running : forall c p l, let s := final c p l in
